@@ -69,6 +69,9 @@ def run_mask(ctx, rep, select=None, rule="MASK"):
             key = w.body.key
             if w.klass == "CTOR":
                 key += "|unmasked-caller-data"
+            if w.ok is None:
+                m.add(rule + "-" + w.klass, key, True, w.msg, _where(w.body), cfg, undecided=True)
+                continue
             m.add(rule + "-" + w.klass if w.ok else rule, key, w.ok, w.msg, _where(w.body), cfg,
                   trusted=(w.klass == "K5" and w.ok))
     m.emit()
@@ -590,13 +593,16 @@ def bv_reserve_shape(crate):
             b = x
     if b is not None:
         ok = False
+        add = ("param", b.local_name(2))
         for sb, cond, ts, fs in guard.cond_edges(b):
-            if mir.is_bin(cond, "Gt") and guard.is_capacity_call(cond[3]) and mir.is_bin(cond[2], "Add") \
-                    and mir.is_call(cond[2][2], "len") and cond[2][3] == ("param", b.local_name(2)):
-                # promotion (aggregate Bv::Dynamic) on the true edge only
-                reach_t = b.reach_avoiding([ts])
-                dyn = [bb for bb, i, st in b.iter_stmts() if st["s"] == "assign" and st["r"]["k"] == "agg" and st["r"].get("variant") == "Dynamic"]
-                ok = bool(dyn) and all(b.edge_dominates((sb, ts), d) for d in dyn)
+            for taken, succ in ((True, ts), (False, fs)):
+                for op, l, r in guard.relations_on_edge(cond, taken):
+                    # len + additional > capacity(), in any spelling / branch polarity
+                    if op == "Gt" and guard.is_capacity_call(r) and mir.is_bin(l, "Add") and add in (l[2], l[3]) \
+                            and any(mir.is_call(x, "len") for x in (l[2], l[3])):
+                        # promotion (aggregate Bv::Dynamic) on that edge only
+                        dyn = [bb for bb, i, st in b.iter_stmts() if st["s"] == "assign" and st["r"]["k"] == "agg" and st["r"].get("variant") == "Dynamic"]
+                        ok = ok or (bool(dyn) and all(b.edge_dominates((sb, succ), d) for d in dyn))
         out.append((b, "Bv::reserve|promotion predicate", "pass" if ok else "violation",
                     "promotes to heap storage exactly when len + additional > Bvp::capacity()" if ok else "promotion predicate not recognised"))
     if b is not None:
@@ -620,28 +626,35 @@ def bv_reserve_shape(crate):
     if b is not None:
         ok = False
         for sb, cond, ts, fs in guard.cond_edges(b):
-            if mir.is_bin(cond, "Le") and guard.is_capacity_call(cond[3]) and mir.is_call(cond[2], "len"):
-                fx = [bb for bb, i, st in b.iter_stmts() if st["s"] == "assign" and st["r"]["k"] == "agg" and st["r"].get("variant") == "Fixed"]
-                ok = bool(fx) and all(b.edge_dominates((sb, ts), d) for d in fx)
+            for taken, succ in ((True, ts), (False, fs)):
+                for op, l, r in guard.relations_on_edge(cond, taken):
+                    if op == "Le" and guard.is_capacity_call(r) and mir.is_call(l, "len"):
+                        fx = [bb for bb, i, st in b.iter_stmts() if st["s"] == "assign" and st["r"]["k"] == "agg" and st["r"].get("variant") == "Fixed"]
+                        ok = ok or (bool(fx) and all(b.edge_dominates((sb, succ), d) for d in fx))
         out.append((b, "Bv::shrink_to_fit|demotion predicate", "pass" if ok else "violation",
                     "demotes to inline storage exactly when len <= Bvp::capacity() (same predicate as Bv::zeros)" if ok else "demotion predicate not recognised"))
     for x in crate.bodies:
         if x.trait == "BitVector" and x.self_family == "Bv" and x.name in ("zeros", "ones", "with_capacity"):
             ok = False
             for sb, cond, ts, fs in guard.cond_edges(x):
-                if mir.is_bin(cond, "Le") and guard.is_capacity_call(cond[3]) and cond[2][0] == "param":
-                    ok = True
+                for taken in (True, False):
+                    for op, l, r in guard.relations_on_edge(cond, taken):
+                        if op == "Le" and guard.is_capacity_call(r) and l[0] == "param":
+                            ok = True
             out.append((x, "%s|mode predicate" % x.key, "pass" if ok else "violation",
                         "inline storage exactly when the requested length <= Bvp::capacity()" if ok else "mode predicate not recognised"))
     for x in crate.bodies:
         # with_capacity(c): the dynamic storage is sized from c itself, so capacity() >= c
         if x.trait == "BitVector" and x.name == "with_capacity" and x.self_family == "Bvd":
             c = ("param", x.local_name(1))
-            allocs = [x.e_call(t) for bb, t, fn in x.iter_calls() if fn and fn["name"] in ("take", "with_capacity", "from_elem")]
-            ok = len(allocs) == 1 and len(allocs[0][3]) >= 1 and mask.cap_arg(allocs[0][3][-1]) == c
-            out.append((x, "%s|allocation slot" % x.key, "pass" if ok else "violation",
+            allocs = x.alloc_exprs()
+            ok = len(allocs) == 1 and mask.cap_arg(allocs[0][1]) == c
+            other = [x.e_call(t) for bb, t, fn in x.iter_calls() if fn and fn["name"] == "with_capacity"]
+            verdict = "pass" if ok else ("undecided" if not allocs and not other else "violation")
+            out.append((x, "%s|allocation slot" % x.key, verdict,
                         "allocates capacity_from_bit_len(%s) words" % c[1] if ok else
-                        "allocates %s - expected capacity_from_bit_len(%s) words so that capacity() >= %s" % ([mir.show(a) for a in allocs], c[1], c[1])))
+                        "allocates %s words - expected capacity_from_bit_len(%s) so that capacity() >= %s"
+                        % ([mir.show(a[1]) for a in allocs] + [mir.show(o) for o in other], c[1], c[1])))
         if x.trait == "BitVector" and x.name == "with_capacity" and x.self_family == "Bv":
             c = ("param", x.local_name(1))
             inner = [x.e_call(t) for bb, t, fn in x.iter_calls() if fn and fn["name"] == "with_capacity"]
@@ -653,22 +666,18 @@ def bv_reserve_shape(crate):
     for x in crate.bodies:
         if x.key in ("Bvd::reserve", "Bvd::shrink_to_fit"):
             # allocation slots (followed one call deep into a private helper of Bvd, with its parameters substituted)
-            allocs = [x.e_call(t) for bb, t, fn in x.iter_calls() if fn and fn["name"] == "take"]
+            allocs = x.alloc_exprs()        # sees through helpers introduced after the review (mir.Crate.new_helper)
             if not allocs:
+                # `self.data[..n].to_vec()`: the allocation is the copied prefix itself
                 for bb, t, fn in x.iter_calls():
-                    if fn and fn.get("local") and not fn.get("trait") and fn["name"] not in ("capacity_from_bit_len", "capacity_from_byte_len"):
-                        callee = crate.body(fn["path"])
-                        if callee is None or callee.self_family != "Bvd":
-                            continue
-                        actual = [x.e_operand(a) for a in t["args"]]
-                        mapping = {("param", callee.local_name(i + 1)): actual[i] for i in range(min(len(actual), callee.arg_count))}
-                        for cb, ct, cfn in callee.iter_calls():
-                            if cfn and cfn["name"] == "take":
-                                allocs.append(_subst(callee.e_call(ct), mapping))
+                    e = x.e_call(t)
+                    if mir.is_call(e, ("to_vec", "to_owned")) and e[3] and mir.is_call(e[3][0], "index") and len(e[3][0][3]) == 2 \
+                            and e[3][0][3][1][0] == "agg" and e[3][0][3][1][1] == "RangeTo":
+                        allocs.append((None, e[3][0][3][1][3][0]))
             want = ("bin", "Add", f2.SELF_LEN, ("param", x.local_name(2))) if x.name == "reserve" else f2.SELF_LEN
-            ok = len(allocs) == 1 and mask.cap_arg(allocs[0][3][1]) == want
-            out.append((x, "%s|allocation slot" % x.key, "pass" if ok else "violation",
-                        "allocates capacity_from_bit_len(%s) words" % mir.show(want) if ok else "allocates %s" % [mir.show(a) for a in allocs]))
+            ok = len(allocs) == 1 and mask.cap_arg(allocs[0][1]) == want
+            out.append((x, "%s|allocation slot" % x.key, "pass" if ok else ("violation" if allocs else "undecided"),
+                        "allocates capacity_from_bit_len(%s) words" % mir.show(want) if ok else "allocates %s words" % [mir.show(a[1]) for a in allocs]))
     return out
 
 
@@ -696,6 +705,7 @@ def check_c03(ctx, rep, tier):
     n = run_generic(ctx, rep, "FMT", f2.fmt_facts)
     rep.floor("formatting observers (prefix constants, sibling digit extraction)", n, 14)
     run_defs(ctx, rep, floor=51)
+    run_generic(ctx, rep, "POS", f2.positional_indices)
     run_dbgfx(ctx, rep, floor=600)    # crate-wide; ~733 functions with at least one effect on the reviewed tree
     rep.notes.append("FMT / stretch-SIB instances on rotl/rotr, bit counts and formatting are supporting facts for the "
                      "not-applicable properties C06, C16, C14: they are observers/operations C03 quantifies over, and a drift "
@@ -722,7 +732,9 @@ def check_c01(ctx, rep, tier):
     n = run_generic(ctx, rep, "CARRY", f2.carry_kernels)
     rep.floor("add/sub/mul kernels (CARRY)", n, 12)
     counts = run_mask(ctx, rep, select=is_kernel_of(ARITH_KERNEL_TRAITS))
-    rep.floor("arithmetic kernels truncated to len (MASK-K1)", counts.get("K1", 0), 12)
+    # kernels whose word loop was moved into a helper taking sub-slices are classified by what remains in them (K4 / K1):
+    # the floor counts every arithmetic kernel that was classified, whatever its class
+    rep.floor("arithmetic kernels classified as truncating writers (MASK)", sum(counts.values()), 12)
     run_generic(ctx, rep, "USED", lambda c: [(b, b.key, "pass" if ok else "violation", why) for b, ok, why in mask.used_words(c)],
                 select=lambda b, k: b.trait in ARITH_KERNEL_TRAITS, memo_key="used")
     n = run_generic(ctx, rep, "COVER", f2.kernel_coverage, select=lambda b, k: b.trait in ARITH_KERNEL_TRAITS)
@@ -813,7 +825,7 @@ def check_c07(ctx, rep, tier):
     n = run_generic(ctx, rep, "LEN", f2.length_effects, select=lambda b, k: b.name in EDIT_FNS)
     rep.floor("length effects of edits", n, 12)
     n = run_generic(ctx, rep, "GUARD-RESERVE", guard.bvd_growth, select=lambda b, k: b.name in EDIT_FNS)
-    rep.floor("Bvd growth sites", n, 4)
+    rep.floor("Bvd growth sites", n, 2)      # push and resize at least (merged branches store the length once)
     run_generic(ctx, rep, "GUARD-BVP", bv_to_bvp_guards, select=lambda b, k: b.name in EDIT_FNS)
     n = run_generic(ctx, rep, "ORDER", f2.trait_defaults,
                     select=lambda b, k: any(x in k for x in ("truncate", "sign_extend", "insert", "split_off", "pop", "Extend", "FromIterator")))
@@ -846,7 +858,10 @@ def check_c09(ctx, rep, tier):
     n = run_generic(ctx, rep, "REV", cmp.rev_parity)
     rep.floor("delegating comparisons", n, 25)
     n = run_generic(ctx, rep, "KERNEL", cmp.kernel_shape)
-    rep.floor("comparison kernels + sibling pairs", n, 9)
+    # comparisons rewritten with iterator adaptors are reported as undecided by REV: they still count as located kernels
+    n = len({i["key"].split("|")[0] for i in rep.instances if (i["rule"] == "KERNEL" and not i["key"].startswith("SIB"))
+             or (i["rule"] == "REV" and i["verdict"] == "undecided")})
+    rep.floor("comparison kernels located (word loops, or adaptor/slice forms reported as undecided)", n, 6)
     run_generic(ctx, rep, "UNWRAP", unwrap.sites, configs=("dbg",), select=lambda b, k: b.name in ("cmp", "partial_cmp"))
     run_used(ctx, rep)
     counts = run_mask(ctx, rep, select=lambda w: (w.body.self_family == "Bvd" or w.body.kind == "Closure") and w.klass != "CTOR")
@@ -992,6 +1007,7 @@ def check_c12(ctx, rep, tier):
     rep.floor("new/into_inner", n, 4)
     n = run_generic(ctx, rep, "DISPATCH", bv_source_dispatch)
     rep.floor("conversions dispatching on a Bv source", n, 3)
+    run_generic(ctx, rep, "POS", f2.positional_indices, select=_is_impl_conv)
     run_dbgfx(ctx, rep, _is_impl_conv)
     if tier == "thorough":
         _matrix(ctx, rep, ("conv",))
@@ -1072,6 +1088,8 @@ def check_c17(ctx, rep, tier):
 def check_c18(ctx, rep, tier):
     n = run_generic(ctx, rep, "GUARD-RESERVE", guard.bvd_growth, trusted_rule="ALLOC-LEMMA")
     rep.floor("Bvd length stores and allocations", n, 35)
+    # the property's own anchors name "loops bounded by allocated words instead of used words" / "spare words must stay
+    # zero and unused": the used-words discipline is part of C18 (spare capacity must not change what later operations do)
     rep.floor("Bvd users of data.len()", run_used(ctx, rep), 7)
     n = run_generic(ctx, rep, "GUARD-BVP", bv_to_bvp_guards)
     rep.floor("Bv -> inline operation calls", n, 11)
@@ -1118,6 +1136,12 @@ def check_c20(ctx, rep, tier):
     n = run_generic(ctx, rep, "SAFE", f2.safe_facts)
     rep.floor("type-system facts (SAFE)", n, 11)
     run_dbgfx(ctx, rep, lambda b, k: b.trait in fwd.OP_TRAITS)
+    # the forms can only agree if every kernel behind them is canonical on its own: the same writer discipline (MASK, USED)
+    # and amount narrowing (NARROW) that C03/C05 rely on, restricted to the operator kernels and to Clone (a clone taken
+    # before an in-place operation must be an exact copy)
+    run_mask(ctx, rep, select=lambda w: (w.body.trait in fwd.OP_TRAITS or w.body.trait == "Clone") and w.klass != "CTOR")
+    run_used(ctx, rep)
+    run_generic(ctx, rep, "NARROW", arith.narrowing, configs=("dbg",))
     if tier == "thorough":
         _matrix(ctx, rep, ("ops",))
     rep.not_decided += ["agreement of the hand-written twins beyond slot equality", "the kernels' values"]
@@ -1208,10 +1232,10 @@ PROPS = {
         level='static rule instances over MIR; decides profile-independence on huge arguments, the range invariant, index expressions and immutability of iteration',
         technique='static analysis: guard dominance on checked arithmetic, invariant-preservation per store, type-level immutability'),
     "C18": dict(fn=check_c18,
-        explanation='GUARD-RESERVE: every Bvd length growth is dominated by a sufficient reserve and every Bvd aggregate allocates cap(len) words (len <= capacity by construction); USED: no Bvd storage write is bounded by allocated rather than used words (spare capacity never changes the value); GUARD-BVP: every call from Bv into an inline operation that could overflow is dominated by reserve()/a capacity comparison; SIB-CAP: reserve allocates cap(len+k), shrink_to_fit cap(len), Bv promotes/demotes under the same predicate zeros uses; LEN: reserve/shrink_to_fit never store the length and copy verbatim; DISPATCH symmetry.',
+        explanation='GUARD-RESERVE: every Bvd length growth is dominated by a sufficient reserve and every Bvd aggregate allocates cap(len) words (len <= capacity by construction); USED: no Bvd storage write is bounded by allocated rather than used words (spare capacity never changes what later operations do); GUARD-BVP: every call from Bv into an inline operation that could overflow is dominated by reserve()/a capacity comparison; SIB-CAP: reserve allocates cap(len+k), shrink_to_fit cap(len), Bv promotes/demotes under the same predicate zeros uses; LEN: reserve/shrink_to_fit never store the length and copy verbatim; DISPATCH symmetry.',
         rule=RULE_TEXT,
-        level='static rule instances over MIR; decides len <= capacity, unbounded growth, spare-capacity independence and mode-switch predicates',
-        technique='static analysis: reserve/guard dominance, loop-bound provenance (used vs allocated words), allocation-slot comparison'),
+        level='static rule instances over MIR; decides len <= capacity, unbounded growth, allocation sizes and mode-switch predicates',
+        technique='static analysis: reserve/guard dominance on all paths, allocation-slot comparison, verbatim-copy (REALLOC) classification'),
     "C19": dict(fn=check_c19,
         explanation='GUARD-CAP: every Bvf length growth or caller-controlled construction (zeros, ones, new, from_*, read, push, resize, TryFrom*) is dominated by a comparison of the new length with capacity() whose failing edge panics or returns Err - evaluated with debug assertions ON and OFF (a debug_assert!-only check disappears from the release CFG and is reported); append/prepend/insert/extend/collect/sign_extend reach the guarded primitives; DEBUG-IDX: get/set/copy_range carry their index assertion in debug builds.',
         rule=RULE_TEXT,
